@@ -351,4 +351,15 @@ theorem flatten_wn (f : Forest) : ∀ o, WN o (flatten o f) := by
     intro o
     cases o <;> simpa [flatten] using ih _
 
+theorem wn_is_forest {o : Option Act} {evs : List Ev} (h : WN o evs) : ∃ f : Forest, flatten o f = evs := by
+  induction h with
+  | nil o => exact ⟨.nil, by cases o <;> rfl⟩
+  | write a n rest _ ih =>
+    obtain ⟨f, hf⟩ := ih
+    exact ⟨.write n f, by simp [flatten, hf]⟩
+  | exec o b on body rest _ _ ihb ihr =>
+    obtain ⟨fb, hb⟩ := ihb
+    obtain ⟨fr, hr⟩ := ihr
+    exact ⟨.exec b on fb fr, by cases o <;> simp [flatten, hb, hr]⟩
+
 end DoitModel.Act.Fwd
